@@ -3,7 +3,7 @@ import ast, z3
 from . import types as T
 from . import extract as X
 from . import registry as R
-from .state import SV, State, VCError, Display, PyFunc, fresh, fresh_sort
+from .state import SV, State, VCError, Display, DisplayDict, PyFunc, fresh, fresh_sort
 from .expr import I, S, is_pystr
 
 BUILTIN_EXC = {"ValueError", "TypeError", "RuntimeError", "NotImplementedError", "KeyError", "IndexError",
@@ -33,7 +33,17 @@ class EvalMixin:
             kind, m, node = X.resolve_name(module, name)
         except X.ExtractionError as e:
             raise VCError("unknown name %s in %s: %s" % (name, module, e))
-        if kind == "const": return self.const_sv(X.const_value(module, name))
+        if kind == "const":
+            try:
+                return self.const_sv(X.const_value(module, name))
+            except X.ExtractionError:
+                sub = State(); sub.ctx = (m, None, st.ctx[2]); sub.heap = st.heap; sub.alloc = st.alloc
+                prev = self.quiet; self.quiet += 1
+                try: outs = list(self.ev(node, sub))
+                finally: self.quiet = prev
+                if len(outs) != 1: raise VCError("module constant %s is not a simple expression" % name)
+                for f in outs[0][0].pc: st.assume(f)
+                return outs[0][1]
         if kind == "func": return SV(PyFunc, ("func", "%s:%s" % (m, name if node.name == name else node.name)))
         if kind == "class": return SV(PyFunc, ("class", "%s:%s" % (m, node.name)))
         if kind == "external": return SV(PyFunc, ("external", "%s.%s" % (m, node)))
@@ -63,8 +73,11 @@ class EvalMixin:
         for st1, vs in self.ev_list(node.elts, st): yield st1, SV(Display, vs)
     ev_Tuple = ev_List
     def ev_Dict(self, node, st):
-        if node.keys: raise VCError("non-empty dict display")
-        yield st, SV(Display, [])
+        if not node.keys:
+            yield st, SV(Display, []); return
+        for st1, ks in self.ev_list(list(node.keys), st):
+            for st2, vs in self.ev_list(list(node.values), st1):
+                yield st2, SV(DisplayDict, list(zip(ks, vs)))
     def ev_Lambda(self, node, st):
         yield st, SV(PyFunc, ("lambda", node))
     def ev_JoinedStr(self, node, st):
@@ -89,9 +102,9 @@ class EvalMixin:
                         yield st3, SV(x2.ty, z3.If(b, x2.t, y2.t))
                 return
             sa = st1.fork(); sa.assume(b)
-            yield from self.ev(node.body, sa)
+            yield from self.explore(lambda: self.ev(node.body, sa), list(sa.pc))
             sb = st1.fork(); sb.assume(z3.Not(b))
-            yield from self.ev(node.orelse, sb)
+            yield from self.explore(lambda: self.ev(node.orelse, sb), list(sb.pc))
 
     def unify(self, x, y):
         if x.ty == y.ty: return x, y
@@ -205,6 +218,8 @@ class EvalMixin:
         if ty == Display:
             return z3.Or([self.eq(x, e, st) for e in cont.t] + [z3.BoolVal(False)])
         if ty == T.Str: return z3.Contains(cont.t, self.coerce(x, T.Str).t)
+        if ty == DisplayDict:
+            return z3.Or([self.eq(x, k, st) for k, _ in cont.t] + [z3.BoolVal(False)])
         if isinstance(ty, T.Dict): return z3.Select(T.dict_dom(ty, cont.t), self.coerce(x, ty.k).t)
         if isinstance(ty, T.Set): return z3.Select(cont.t, self.coerce(x, ty.k).t)
         if isinstance(ty, T.List):
@@ -240,6 +255,11 @@ class EvalMixin:
             kind = base.t[0]
             if kind == "class":      # Class.staticmethod / Class.CONST
                 yield st, SV(PyFunc, ("func", base.t[1] + "." + attr)); return
+            if kind == "external":
+                key = base.t[1] + "." + attr
+                if key in R.EXTCONSTS:
+                    yield st, SV(R.EXTCONSTS[key][0], R.EXTCONSTS[key][1]); return
+                yield st, SV(PyFunc, ("external", key)); return
             raise VCError("attribute %s of %s" % (attr, base.t,))
         base = self.unwrap_opt(st, base, node)
         if isinstance(base.ty, T.Obj):
@@ -264,6 +284,8 @@ class EvalMixin:
         cands = self.classes_of(st, obj)
         missing = []
         for cq, cond in cands:
+            if cq.startswith("ext:"):
+                yield st, SV(PyFunc, ("bound", cq + "." + attr, obj)); continue
             m, c = cq.split(":")
             prop = X.find_property(m, c, attr)
             st2 = st.fork() if len(cands) > 1 else st
@@ -305,6 +327,21 @@ class EvalMixin:
         if ty == T.Str:
             return SV(T.Str, self.str_index(st, base.t, self.coerce(idx, T.Int).t, node) if not self.spec
                       else z3.SubString(base.t, z3.If(idx.t < 0, idx.t + z3.Length(base.t), idx.t), 1))
+        if ty == DisplayDict:
+            if not self.spec: self.oblige(st, self.contains(st, base, idx, node), "key-in-dict", node)
+            vals = [v for _, v in base.t]
+            vty = vals[0].ty
+            for v in vals:
+                if v.ty != vty:
+                    a, b = self.unify(SV(vty, None), v) if False else (None, None)
+            # unify value types (None mixed with values -> Opt)
+            tys = [v.ty for v in vals if v.ty != T.NoneT]
+            vty = tys[0] if tys else T.NoneT
+            if any(v.ty == T.NoneT for v in vals) and vty != T.NoneT and not isinstance(vty, T.Opt): vty = T.Opt(vty)
+            r = self.coerce(vals[-1], vty).t
+            for k, v in reversed(base.t[:-1]):
+                r = z3.If(self.eq(idx, k, st), self.coerce(v, vty).t, r)
+            return SV(vty, r)
         if isinstance(ty, T.Tup) or ty == Display:
             if not z3.is_int_value(idx.t): raise VCError("tuple index must be constant")
             k = idx.t.as_long()
